@@ -3,7 +3,8 @@ HOOK_COMMITS = ["400b3e9"]
 ENGINES = [
     dict(name="driver", path="vf/driver.py", serves_properties=[], kind_free_text="builds targets against /repo's current tree, runs shards on 16 cores, merges reports, known-findings logic, evidence writer"),
     dict(name="corpus+slots", path="vf/gen.py harness/engine.hpp harness/corpus_main.hpp model/peg_model.hpp", serves_properties=["C01", "C02", "C04", "C05", "C06", "C08", "C09"], kind_free_text="generate-compile-run grammar corpus and slot shapes, observer control with match() wrapper, reference PEG model, rapidcheck scripts"),
-    dict(name="zoo", path="targets/c02_zoo.cpp", serves_properties=["C02", "C06"], kind_free_text="rule zoo: every hand-written match() rule in rewinding contexts on exhaustive short inputs, invariants from the observer control"),
+    dict(name="bounds sweep + libFuzzer", path="targets/c03_bounds.cpp", serves_properties=["C03"], kind_free_text="one source built as ASan boundary sweep and as libFuzzer target; rule table of 79 rules x 4 input classes; window-hook and metamorphic oracle inside the target"),
+    dict(name="zoo", path="targets/c02_zoo.cpp", serves_properties=["C02", "C03", "C06"], kind_free_text="rule zoo: every hand-written match() rule in rewinding contexts on exhaustive short inputs, invariants from the observer control"),
     dict(name="enumerators+rapidcheck", path="targets/", serves_properties=["C10", "C14", "C15", "C16", "C17", "C19", "C20"], kind_free_text="total enumeration of finite spaces plus rapidcheck generators, explicit independent oracles"),
 ]
 NOTES = "All checks: ./check <id> --tier quick|thorough [--replay FILE]; seeds from VERIF_SEED; budgets are case counts."
@@ -22,6 +23,12 @@ CLAIMS = {
         text="Exploration: the rewind invariant is evaluated at every rule invocation (pointer, byte, line, column; look-ahead never moves; success never moves backwards) for ~80 hand-written-match rules in 6-7 rewinding contexts x 3 action attachments x eager/lazy on all strings to length 4..9, for every combinator over adversarial slots entered under required, and for random grammars. Found the integer-rule and raw_string defects (both fixed).",
         design_ref="DESIGN.md sections 1.2, 1.3, 2 C02",
         note="Trusted: the monitor (harness/engine.hpp) and the snapshot it takes of the input; the guarded bump hook only feeds the non-triviality counter."),
+    "C03": dict(
+        engine="bounds sweep + libFuzzer",
+        technique="ASan/UBSan boundary sweep (every truncation / byte replacement of valid inputs for 79 rules x 4 input classes) + coverage-guided libFuzzer with a semantic window oracle (guarded peek/bump hook, metamorphic bytes-beyond-end relation)",
+        text="Exploration: inputs live in exact-size heap blocks without terminator or inside poisoned larger buffers, so that any read at or beyond the end is an ASan report, any peek/bump beyond the window is reported by the guarded hook, and any dependence on bytes beyond the logical end shows up as a changed result. Boundary cases are constructed (all truncations and single-byte replacements of valid documents for every shipped grammar and rule family) and then extended by a libFuzzer campaign seeded with them. Found the maximum_rule over-read (fixed, 7059460) and the limit_bytes end-before-cursor defect (fixed, 0faa8c6).",
+        design_ref="DESIGN.md sections 1.5, 1.6, 2 C03",
+        note="Trusted: ASan/UBSan (clang 14), the guarded hook in memory_input/buffer_input (commit 400b3e9)."),
     "C04": dict(
         engine="corpus+slots",
         technique="generated grammars with scripted void/bool actions, transactional action log vs the reference model's derivation, per-invocation invariants; exhaustive short inputs + rapidcheck scripts",
